@@ -46,15 +46,26 @@ Runs14(c) ==
                  pads |-> PadTable(c, 0, t), writer |-> ""] : t \in Totals}
           ELSE {})
 
+\* token-count sweep: k dashed empty print tags (5 tokens each) in one pad, a plain pad that lifts the
+\* template over the large-template threshold; k sweeps so that the token count passes through every
+\* residue and the buffer-capacity steps of the tokenizer
+SweepKs == IF Quick THEN {k \in 70..260 : k % 3 = 0} ELSE 40..420
+SweepRuns(c) ==
+    {[label |-> "sweep" \o ToString(k) \o "/" \o st, tp |-> SourcesOf(c, FALSE), xcalls |-> [id \in {} |-> 0], writer |-> "",
+      pads |-> [i \in 1..MaxSym |-> IF i = 1 THEN [len |-> (IF st = "d" THEN 14 ELSE 6) * k, style |-> st, total |-> 0]
+                                    ELSE IF i = 2 THEN [len |-> 4200, style |-> "p", total |-> 0]
+                                    ELSE [len |-> 0, style |-> "p", total |-> 0]]] : k \in SweepKs, st \in {"d", "e"}}
+SweepCases == UNION {{[s |-> name, D |-> D, style |-> "sp", padAt |-> {1, 2}, ps |-> "sweep"]
+                        : D \in {{}, 1..NDelims(MainPieces(name))}} : name \in {"print2", "ifelse"}}
 CaseOf14(c) ==
     [prop |-> "C14", key |-> ToJson(c),
      tags |-> {"s:" \o c.s, "style:" \o c.style, "ndash:" \o ToString(Cardinality(c.D)), "pad:" \o c.ps,
                "npads:" \o ToString(Cardinality(c.padAt))},
      entry |-> "main", ctx |-> Ctx,
-     runs |-> Runs14(c),
+     runs |-> IF c.ps = "sweep" THEN SweepRuns(c) ELSE Runs14(c),
      expect |-> [ok |-> TRUE, out |-> Expected(c), err |-> "", calls |-> [id \in {} |-> 0]]]
 
-Init14 == cs \in Cases14
+Init14 == cs \in Cases14 \cup SweepCases
 Spec14 == Init14 /\ [][UNCHANGED cs]_cs
 Emit14 == PrintT(ToJson(CaseOf14(cs)))
 
